@@ -523,6 +523,34 @@ theorem C07_recycled_buffer (buf : Bytes) (sched : List Step) (data : Bytes) :
 theorem C07_recycled_buffer_call (fuel : Nat) (c : BReader) (h : c.WF) :
     (bnextOpt fuel c).view = nextOpt fuel c.view ∧ (bnextOpt fuel c).WF := bnextOpt_view fuel c h
 
+/-- **`C07_recycled_buffer_api`: the same for the whole API.**  `read`, `read_bytes(n)`, `skip_container` (its 8-byte loads
+and byte reads see the allocation, bounded by its pointer comparisons) and `skip_unquoted_value` (its 4-byte load) over the
+concrete buffer: every SEQUENCE of calls in any order, continuing after errors, from a reader built on a caller-provided
+buffer with arbitrary contents, observes exactly what the same calls observe on the abstract reader with a buffer of the
+same length — tokens, byte slices, errors —; hence the same for any two buffers of equal length. -/
+theorem C07_recycled_buffer_api (fuel : Nat) (ops : List ApiCall) (buf : Bytes) (sched : List Step) (data : Bytes) :
+    bapiRun fuel ops (BReader.ofBuffer buf sched data) = apiRun fuel ops (fromReader buf.length sched data) ∧
+    (∀ buf' : Bytes, buf'.length = buf.length →
+      bapiRun fuel ops (BReader.ofBuffer buf' sched data) = bapiRun fuel ops (BReader.ofBuffer buf sched data)) := by
+  have h : ∀ b : Bytes, bapiRun fuel ops (BReader.ofBuffer b sched data) = apiRun fuel ops (fromReader b.length sched data) :=
+    fun b => bapiRun_view fuel ops (BReader.ofBuffer b sched data) ⟨Nat.le_refl _, Nat.zero_le _⟩
+  refine ⟨h buf, fun buf' hl => ?_⟩
+  rw [h buf', h buf, hl]
+
+/-- each call on any well-formed concrete reader (`start ≤ end ≤ len`) -/
+theorem C07_recycled_buffer_calls (fuel n : Nat) (c : BReader) (h : c.WF) :
+    ((bread fuel c).view = read fuel c.view ∧ (bread fuel c).WF) ∧
+    ((breadBytes fuel c n).view = readBytes fuel c.view n ∧ (breadBytes fuel c n).WF) ∧
+    ((bskipContainer fuel c).view = skipContainer fuel c.view ∧ (bskipContainer fuel c).WF) ∧
+    ((bskipUnquotedValue fuel c).view = skipUnquotedValue fuel c.view ∧ (bskipUnquotedValue fuel c).WF) :=
+  ⟨bread_view fuel c h, breadBytes_view fuel c n h, bskipContainer_view fuel c h, bskipUnquotedValue_view fuel c h⟩
+
+-- a buffer full of `}`: read two tokens, skip the container, read on — the stale braces are never counted
+example : bapiRun 60 [.next, .next, .next, .skipContainer, .next, .next]
+    (BReader.ofBuffer (List.replicate 12 125) [.give 5, .repeat_ 3] [97, 61, 123, 32, 123, 32, 120, 32, 125, 32, 125, 32, 98, 10]) =
+    [.next (some (.unquoted [97])), .next (some (.op .eq)), .next (some .open_), .unit, .next (some (.unquoted [98])), .next none] := by
+  decide +kernel
+
 -- a buffer full of `"`: the bytes behind the window are never taken for the closing quote
 example : (streamTokensBuf (List.replicate 16 34) [.give 3, .repeat_ 2] [97, 61, 34, 98, 99, 34, 32, 120, 10]).toks =
     [.unquoted [97], .op .eq, .quoted [98, 99], .unquoted [120]] := by decide +kernel
